@@ -117,7 +117,9 @@ class C17(Prop):
                 rk["do_not_retry_for"] = self.spell(rng, SUBSETS[dn])
             if rng.random() < 0.1:
                 del rk["retry_delay"]
-            m = rng.choice(["op", "op", "op", "set", "get", "__setitem__", "__getitem__", "__delitem__"])
+            m = rng.choice(["op", "op", "set", "get", "__setitem__", "__getitem__", "__delitem__",
+                            rng.choice(["incr", "decr", "append", "prepend", "add", "replace", "touch", "cas",
+                                        "get_many", "set_many", "delete_many", "flush_all", "gets", "delete"])])
             a = [E(rng.choice([b"k", "key", 1]))]
             k = {}
             if m in ("op", "set", "__setitem__"):
@@ -270,6 +272,8 @@ class C17(Prop):
             want_a = ("get",) + want_a
         elif m == "__delitem__":
             want_a, want_k = ("delete",) + want_a, {"noreply": True}
+        elif m != "op":
+            want_a = (m,) + want_a        # the stub's named methods pass their own name on
         for a, k in stub.calls:
             if a != want_a or k != want_k:
                 out.append(viol("arguments-not-forwarded-unchanged", rec, got=repr((a, k))[:200],
